@@ -842,7 +842,12 @@ def gen_world(rng, kind: str, backend: str) -> dict:
                 d = now + fastest + rng.randint(0, 2)  # tight
             else:
                 d = now + rng.randint(fastest + 1, max(fastest + 2, 8 + 3 * ti))
-            t["deadline"] = max(0, min(d, dl_hi))
+            d = max(0, min(d, dl_hi))
+            if flags["enforce_deadlines"] and plan_ is not None and st in ("RUNNING", "SCHEDULED"):
+                # reachable states only: an enforcing planner never scheduled a task past its deadline
+                wi, si, at, rem = plan_
+                d = max(d, at + t["strats"][si]["runtime"])
+            t["deadline"] = d
         graphs.append({"name": f"G{gi}", "tasks": tasks, "edges": edges})
     return {
         "backend": backend,
@@ -920,6 +925,79 @@ def corpus(kind: str) -> list[dict]:
                 "uuid_seed": 3,
             }
         )
+        # C14-TETRI-3: a SCHEDULED task must be re-placed on the shifted grid (disc 3, now 5) and
+        # collides with the RUNNING task: infeasible model, the offered T is returned unplaced
+        out.append(
+            {
+                "backend": backend,
+                "now": 5,
+                "pools": one_pool(3),
+                "graphs": [
+                    {"name": "G0", "tasks": [task("T", "RELEASED", [st(2)], 10, release=5)], "edges": []},
+                    {"name": "G1", "tasks": [task("S", "SCHEDULED", [st(3, 2)], 10, release=3, prev={"w": 0, "s": 0, "time": 7, "sched_at": 4})], "edges": []},
+                    {"name": "G2", "tasks": [task("R", "RUNNING", [st(2, 2)], 9, release=5, prev={"w": 0, "s": 0, "time": 5, "sched_at": 5, "remaining": 2})], "edges": []},
+                ],
+                "flags": dict(flags, disc=3, plan_ahead=6),
+                "uuid_seed": 4,
+            }
+        )
+        # C14-TETRI-2: RUNNING R (runtime 3, remaining 1) is booked until 5; T (deadline 4) would fit at 3
+        out.append(
+            {
+                "backend": backend,
+                "now": 2,
+                "pools": one_pool(1),
+                "graphs": [
+                    {"name": "G0", "tasks": [task("T", "RELEASED", [st(1)], 4, release=2)], "edges": []},
+                    {"name": "G1", "tasks": [task("R", "RUNNING", [st(3)], 9, release=0, prev={"w": 0, "s": 0, "time": 0, "sched_at": 0, "remaining": 1})], "edges": []},
+                ],
+                "flags": dict(flags, plan_ahead=2),
+                "uuid_seed": 5,
+            }
+        )
+    # C14-TETRI-3 (Gurobi, parent count): join J SCHEDULED, parent A COMPLETED, parent B RUNNING
+    out.append(
+        {
+            "backend": "gurobi",
+            "now": 4,
+            "pools": one_pool(3),
+            "graphs": [
+                {
+                    "name": "G0",
+                    "tasks": [
+                        task("A", "COMPLETED", [st(2)], 12, release=0, prev={"w": 0, "s": 0, "time": 0, "sched_at": 0, "finish": 2}),
+                        task("B", "RUNNING", [st(4)], 12, release=0, prev={"w": 0, "s": 0, "time": 2, "sched_at": 0, "remaining": 2}),
+                        task("J", "SCHEDULED", [st(2)], 12, release=0, prev={"w": 0, "s": 0, "time": 7, "sched_at": 0}),
+                    ],
+                    "edges": [[0, 2], [1, 2]],
+                },
+                {"name": "G1", "tasks": [task("X", "RELEASED", [st(2)], 12, release=4)], "edges": []},
+            ],
+            "flags": dict(flags, plan_ahead=8),
+            "uuid_seed": 6,
+        }
+    )
+    # C14-TETRI-4 (Gurobi, parent count): join J offered by lookahead, parent A COMPLETED, parent B offered
+    out.append(
+        {
+            "backend": "gurobi",
+            "now": 2,
+            "pools": one_pool(2),
+            "graphs": [
+                {
+                    "name": "G0",
+                    "tasks": [
+                        task("A", "COMPLETED", [st(2)], 12, release=0, prev={"w": 0, "s": 0, "time": 0, "sched_at": 0, "finish": 2}),
+                        task("B", "RELEASED", [st(2)], 12, release=2),
+                        task("J", "VIRTUAL", [st(2)], 12, release=None),
+                    ],
+                    "edges": [[0, 2], [1, 2]],
+                }
+            ],
+            "flags": dict(flags, lookahead=10, plan_ahead=9),
+            "uuid_seed": 7,
+        }
+    )
     return out
 
 
@@ -1291,6 +1369,94 @@ def addable_cells(w: World, rec: dict, booking: str = "true", count_all_parents:
     return out
 
 
+def must_tasks_placeable(w: World, rec: dict) -> bool:
+    """Can the tasks the formulation insists on placing (SCHEDULED, non-retracting mode) all be
+    placed on this invocation's grid within the formulation's own limits (RUNNING tasks booked
+    for their full runtime, deadlines, `parent slot + slowest + 1`, as many parents with variables
+    as graph parents)?  Exhaustive search over those tasks only."""
+    f = w.spec["flags"]
+    if f["retract"]:
+        return True
+    tasks = [t for t in rec.get("tasks", []) if t.state.name == "SCHEDULED"]
+    if not tasks:
+        return True
+    with_vars = {t.unique_name for t in rec.get("tasks", [])}
+    workers = worker_order(w, rec)
+    cap = _caps(w)
+    grid = _grid(w, rec)
+    base = []
+    for _, task in w.task_list:
+        if task.state.name == "RUNNING":
+            cp = task.current_placement
+            base.append((cp.worker_id, w.now, w.now + _t(cp.execution_strategy.runtime), _req(cp.execution_strategy)))
+    cands = []
+    for t in tasks:
+        g = w.workload.get_task_graph(t.task_graph)
+        parents = list(dict.fromkeys(g.get_parents(t)))
+        if w.backend == "gurobi":
+            pv = [p for p in parents if p.unique_name in with_vars]
+            if pv and len(pv) != len(parents):
+                return False  # the all-parents-placed rows can never hold
+        c = []
+        for wk in workers:
+            for s in t.available_execution_strategies:
+                req = _req(s)
+                if any(q > cap[wk.id].get(rn, 0) for rn, q in req.items()):
+                    continue
+                for slot in grid:
+                    if slot < _t(t.release_time):
+                        continue
+                    if f["enforce_deadlines"] and slot + _t(s.runtime) > _t(t.deadline):
+                        continue
+                    c.append((wk.id, slot, slot + _t(s.runtime), req))
+        cands.append((t, parents, c))
+    chosen = {}
+
+    def ok_prec(t, parents, slot):
+        if w.backend != "gurobi":
+            return True
+        for par in parents:
+            slow = max(_t(s.runtime) for s in par.available_execution_strategies)
+            if par.state.name == "RUNNING":
+                if slot < w.now + _t(par.remaining_time) + 1:
+                    return False
+            elif par.unique_name in chosen:
+                if slot < chosen[par.unique_name][1] + slow + 1:
+                    return False
+        return True
+
+    def fits(iv):
+        for (wid, s0, _e0, _r) in iv:
+            use = {}
+            for (wid2, s, e, req) in iv:
+                if wid2 == wid and s <= s0 < e:
+                    for rn, q in req.items():
+                        use[rn] = use.get(rn, 0) + q
+            if any(q > cap[wid].get(rn, 0) for rn, q in use.items()):
+                return False
+        return True
+
+    order = sorted(range(len(cands)), key=lambda i: len([p for p in cands[i][1] if p.state.name == "SCHEDULED"]))
+
+    def rec_(k, iv):
+        if k == len(order):
+            # children constraints between must tasks were checked when the later one was placed;
+            # re-check all pairs for order independence
+            for t, parents, _ in cands:
+                if not ok_prec(t, parents, chosen[t.unique_name][1]):
+                    return False
+            return True
+        t, parents, c = cands[order[k]]
+        for cell in c:
+            chosen[t.unique_name] = cell
+            if fits(iv + [cell]) and rec_(k + 1, iv + [cell]):
+                return True
+            del chosen[t.unique_name]
+        return False
+
+    return rec_(0, base)
+
+
 def c14_verdict(w: World, rec: dict):
     """(addable cells under the true limits, signature or None)."""
     f = w.spec["flags"]
@@ -1301,7 +1467,14 @@ def c14_verdict(w: World, rec: dict):
     tasks_true = {c[0] for c in true_cells}
     tasks_coded = {c[0] for c in coded}
     if not rec["solved"] and rec["model"] is not None:
-        why = "the solver found no solution (model infeasible): every offered task is returned unplaced"
+        if not must_tasks_placeable(w, rec):
+            why = (
+                "a previously SCHEDULED task cannot be re-placed within the formulation's own limits "
+                "(shifted grid, RUNNING tasks booked for their full runtime, parent count): the model is "
+                "infeasible and every offered task is returned unplaced"
+            )
+        else:
+            why = "the solver found no solution although the tasks that must be placed fit: not explained by any known defect class"
     elif tasks_coded:
         g = w.workload
         unrewarded = all(
